@@ -1556,3 +1556,34 @@ func (b *bounds) constNeed(x *ast.SliceExpr) (int64, bool) {
 	}
 	return need, true
 }
+
+// callOracleExpr is callOracle with a matcher that also says what the matched condition evaluates to.
+func callOracleExpr(match func(e ast.Expr) (matched, canTrue, canFalse bool)) func(ast.Expr) (bool, bool) {
+	var ev func(e ast.Expr) (bool, bool)
+	ev = func(e ast.Expr) (bool, bool) {
+		e = ast.Unparen(e)
+		if m, t, f := match(e); m {
+			return t, f
+		}
+		switch x := e.(type) {
+		case *ast.UnaryExpr:
+			if x.Op == token.NOT {
+				t, f := ev(x.X)
+				return f, t
+			}
+		case *ast.BinaryExpr:
+			switch x.Op {
+			case token.LAND:
+				lt, lf := ev(x.X)
+				rt, rf := ev(x.Y)
+				return lt && rt, lf || (lt && rf)
+			case token.LOR:
+				lt, lf := ev(x.X)
+				rt, rf := ev(x.Y)
+				return lt || (lf && rt), lf && rf
+			}
+		}
+		return true, true
+	}
+	return ev
+}
